@@ -145,6 +145,25 @@ func checkSelection(c *core.Ctx) {
 					fmt.Sprintf("the choice between Limit and OrderSensitiveTransform must look at whether the *input* can retract (….Source.Schema.NoRetractions); it looks at %s.NoRetractions, which describes the node's own output", owner))
 				return true
 			})
+			// the csv/json printer cannot express retractions at all: there the transform is needed whenever the plan
+			// can retract, LIMIT or not
+			eagerSite := false
+			core.WalkStack(fn.Decl.Body, func(x ast.Node, stack []ast.Node) bool {
+				if x == ast.Node(is) {
+					for _, st := range stack {
+						if cc, ok := st.(*ast.CaseClause); ok && strings.Contains(core.ExprStr(cc), `"csv"`) {
+							eagerSite = true
+						}
+					}
+				}
+				return true
+			})
+			if ctor == "OST" && eagerSite {
+				wantEager := formulaTable(func(a, b, cc bool) bool { return a || !cc })
+				c.Decide(tab == wantEager, "MIR6", key, is.Pos(), 8, "csv/json: OrderSensitiveTransform ⇔ ORDER BY ∨ ¬NoRetractions",
+					fmt.Sprintf("the csv/json printer prints every record it gets as a row, so a plan that can retract must be consolidated first whether or not there is a LIMIT: truth table over (ORDER BY, LIMIT, NoRetractions) is %s, expected %s — otherwise additions and their retractions both appear as rows", tab, wantEager))
+				return true
+			}
 			switch ctor {
 			case "OST":
 				c.Decide(tab == wantOST, "MIR6", key, is.Pos(), 8, "OrderSensitiveTransform ⇔ ORDER BY ∨ (LIMIT ∧ ¬NoRetractions)",
